@@ -544,7 +544,7 @@ fn main() {
         let out = rt.block_on(run_virtual(&sc, &mut next_seq));
         check(&rep, Some(&sc), &out, "virtual", true);
     }
-    for _ in 0..a.pick(1_500, 200_000) {
+    for _ in 0..a.pick(1_500, 30_000) {
         let sc = random_scenario(&mut rng);
         let out = rt.block_on(run_virtual(&sc, &mut next_seq));
         check(&rep, Some(&sc), &out, "virtual", true);
@@ -556,7 +556,7 @@ fn main() {
     let rt = tokio::runtime::Builder::new_multi_thread().worker_threads(4).enable_all().build().unwrap();
     gate::stress(PAUSE_CLOSE, 200, a.seed ^ 0x21);
     let mut rng = Rng::derive(a.seed, "C21-threads", 0);
-    rt.block_on(stress(&rep, &mut rng, &mut next_seq, a.pick(8_000, 120_000)));
+    rt.block_on(stress(&rep, &mut rng, &mut next_seq, a.pick(8_000, 40_000)));
     gate::reset();
     rep.set_extra("virtual_seconds", json!(t_virtual));
 
